@@ -3,9 +3,12 @@ import json
 import os
 
 COMMON_ASSUMPTIONS = [
-    "pyvc is a home-made VC generator: its encoding of Python semantics (DESIGN.md section 2) is trusted; guards: 'ensures False' canaries on every unit, "
-    "library-contract conformance against the real numpy/Python (selftest/, thorough tier), 38 independently seeded property-breaking changes (seeded/)",
-    "numpy int64 arithmetic treated as mathematical integers (no overflow: vertex indices < 4^k, k <= 31; position sums < 2^63)",
+    "pyvc is a home-made VC generator: its encoding of Python semantics (DESIGN.md sections 2 and 12.6) is trusted; guards: 'ensures False' canaries on every "
+    "unit, library-contract conformance against the real numpy/Python (selftest/, thorough tier), 76 independently seeded property-breaking changes (seeded/) "
+    "that the checks must report and 15 behaviour-preserving refactorings (refactors/) on which they must stay quiet",
+    "numpy int64 RESULTS are treated as mathematical integers (no wrap-around: vertex indices < 4^k, k <= 31; position sums < 2^63); the conversion of a Python "
+    "int operand of a numpy.sum result to int64 (OverflowError, NumPy >= 2) IS modelled, scalars read out of arrays by indexing are not tagged",
+    "CPython's 4300-digit limit of int(str) / str(int) is modelled; other interpreter limits (recursion depth, memory) are not",
     "running time, memory, interpreter start-up, the datetime-dependent text of Monitor are not modelled",
 ]
 
@@ -43,8 +46,8 @@ def write(here, pid, P, tier, seed, proof, bounded, n_viol, known_lines, undecid
         })
         samples += [{"obligation": s} for s in proof.get("samples", [])][:6]
         trusted += [t for t in proof.get("trusted_base", []) if t not in trusted]
-        if proof["discharged"] != proof["obligations"] and level == "proof":
-            level = "other"
+        if (proof["discharged"] != proof["obligations"] or proof.get("binding_failures")) and level == "proof":
+            level = "other"          # an undischarged obligation or a unit whose sidecar no longer binds: nothing is claimed as proved
     else:
         if level == "proof":
             level = "other"
